@@ -396,6 +396,55 @@ def run(ctx):
                 continue
             n_m += 1
             ctx.inst("C10.R6", "match@%s#%s" % (H.loc(m).split(":")[-1] and "L%d" % n_m, a_), ia == ib, "%s in arm %s, %s in arm %s" % (a_, ia, b_, ib), H.loc(m))
+    # the same for every pattern and comparison in code reachable from the evaluator (tuple patterns, if-let, matches!, ==)
+    from lib import mir as M_
+    cg_ = M_.CallGraph([core])
+    ev_reach = {n for n in cg_.reachable_from(["blots_core::expressions::evaluate_ast"]) if n.startswith("blots_core::expressions::") or n.startswith("blots_core::functions::")}
+    TW = {"And": "NaturalAnd", "NaturalAnd": "And", "Or": "NaturalOr", "NaturalOr": "Or"}
+
+    def binop_variants(p):
+        return {H.last(x["res"].get("def") or "") for x in H.walk(p) if H.kind(x) in ("Path", "Struct", "TupleStruct") and "ast::BinaryOp::" in (x.get("res", {}).get("def") or "")}
+
+    seen_parent = set()
+    n_p = 0
+    for fnm in sorted(ev_reach):
+        par = cg_.fns[fnm].get("parent") or fnm
+        if par in seen_parent or par not in core.hir:
+            continue
+        seen_parent.add(par)
+        body = core.hir[par]["body"]
+        pats = []
+        for n in H.walk(body):
+            if H.kind(n) == "Match":
+                if n["scrut"].get("ty", "").lstrip("&").endswith("ast::BinaryOp") and par == "blots_core::expressions::evaluate_binary_op_ast":
+                    continue  # decided arm by arm above
+                for a in n["arms"]:
+                    pats.append((a["pat"], n))
+            elif H.kind(n) == "LetExpr":
+                pats.append((n["pat"], n))
+            elif H.kind(n) == "Binary" and n["op"] in ("Eq", "Ne"):
+                vs = binop_variants(n["l"]) | binop_variants(n["r"])
+                if vs & set(TW):
+                    # a comparison against one spelling: the twin must be compared in the same condition
+                    pats.append((None, n))
+        for pat, node in pats:
+            vs = binop_variants(pat) if pat is not None else (binop_variants(node["l"]) | binop_variants(node["r"]))
+            hit = vs & set(TW)
+            if not hit:
+                continue
+            n_p += 1
+            missing = sorted(v for v in hit if TW[v] not in vs)
+            if pat is None and missing:
+                # look at the enclosing condition: `op == Or || op == NaturalOr`
+                encl = [x for x in H.walk(body) if H.kind(x) == "If" and any(y is node for y in H.walk(x["cond"]))]
+                if encl:
+                    allv = set()
+                    for y in H.walk(encl[0]["cond"]):
+                        if H.kind(y) == "Binary" and y["op"] in ("Eq", "Ne"):
+                            allv |= binop_variants(y["l"]) | binop_variants(y["r"])
+                    missing = sorted(v for v in hit if TW[v] not in allv)
+            ctx.inst("C10.R6", "%s#pattern[%d]" % (par.replace("blots_core::", ""), n_p), not missing,
+                     "a pattern / comparison in the evaluator names %s%s" % (sorted(hit), "" if not missing else " but not the other spelling of %s: the word and the symbol form would evaluate differently" % missing), H.loc(node))
     pre = {}
     for vs, body, a in match_arms(m_prefix):
         st = [H.last(H.path_def(f["e"])) for n in H.walk(body) if H.kind(n) == "Struct" for f in n["fields"] if f["name"] == "op"]
